@@ -226,11 +226,11 @@ impl Board {
     // PositionInfo delegation
 
     pub fn count_current_position(&mut self) -> u8 {
-        self.position_info.count_current_position()
+        self.position_info.count_current_position(self.turn)
     }
 
     pub fn uncount_current_position(&mut self) -> u8 {
-        self.position_info.uncount_current_position()
+        self.position_info.uncount_current_position(self.turn)
     }
 
     pub fn max_seen_position_count(&self) -> u8 {
